@@ -38,7 +38,7 @@ template <class E, template <class, class, class> class Algo> void periodicSingl
         auto top = std::make_unique<TbfAlgorithmPeriodicTopTree<Real, typename E::CheckedPoly, typename E::PV, typename E::PV, typename E::Space>>(*pr.cfg, extra);
         if (beforeExecute) beforeExecute();
         algo->execute(*pr.tree, TbfBottomToTopStages);
-        rc.topTree = true; rc.topHeight = extra + 5; rc.nbLevelsAbove0 = extra;
+        rc.beginTop(extra);
         top->execute(*pr.tree);
         rc.topTree = false;
         if (beforeExecute) beforeExecute();
@@ -91,7 +91,7 @@ template <class E, template <class, class, class> class AlgoTsm = SeqAlgoTsm> vo
         auto top = std::make_unique<TbfAlgorithmPeriodicTopTreeTsm<Real, typename E::CheckedPoly, typename E::PV, typename E::PV, typename E::Space>>(*pr.cfg, extra);
         if (beforeExecute) beforeExecute();
         algo->execute(*pr.tree, TbfBottomToTopStages);
-        rc.topTree = true; rc.topHeight = extra + 5; rc.nbLevelsAbove0 = extra;
+        rc.beginTop(extra);
         top->execute(*pr.tree);
         rc.topTree = false;
         if (beforeExecute) beforeExecute();
